@@ -30,7 +30,7 @@ import (
 
 // HOp is one operation of a history.
 type HOp struct {
-	Kind      string   `json:"kind"` // "sched" | "refresh" | "fire"
+	Kind      string   `json:"kind"` // "sched" | "refresh" | "fire" | call sites (sites_test.go): "tick" | "forkepoch" | "startup"
 	Cur       uint64   `json:"cur"`  // the clock (current slot) at the operation (sched, refresh)
 	Epoch     uint64   `json:"epoch,omitempty"`
 	NotCur    bool     `json:"not_cur,omitempty"`
@@ -39,6 +39,11 @@ type HOp struct {
 	DutiesErr bool     `json:"duties_err,omitempty"`
 	Accts     []uint64 `json:"accts,omitempty"`
 	AcctsErr  bool     `json:"accts_err,omitempty"`
+	// call sites: Accts are the accounts held, the sync committee eligible validators; those of them
+	// in Exited have exited (not yet withdrawable) and are not among the active validators.  Duties2:
+	// the node's answer for the next period (the second call of start-up and of the fork handler).
+	Exited  []uint64 `json:"exited,omitempty"`
+	Duties2 []Duty   `json:"duties2,omitempty"`
 	// ViaHead: the refresh is brought about by head events (checkEventForReorg ->
 	// handleCurrentDependentRootChanged) when the clock is in the first epoch of a period and the
 	// epoch asked for is that of the next period; otherwise the function is called directly.
@@ -61,21 +66,52 @@ type histObs struct {
 // ctrlAccounts is the controller's account provider: the sync committee requests go to the scripted
 // environment; the general request (used by the proposer and attester refreshes that a changed
 // dependent root also starts, not C15's subject) reports no validator, so those refreshes end early.
-type ctrlAccounts struct{ e *env }
-
-func (c ctrlAccounts) ValidatingAccountsForEpoch(_ context.Context, _ phase0.Epoch) (map[phase0.ValidatorIndex]e2wtypes.Account, error) {
-	return map[phase0.ValidatorIndex]e2wtypes.Account{}, nil
+type ctrlAccounts struct {
+	e      *env
+	active []uint64 // nil: no validator (every history without call sites)
 }
 
-func (c ctrlAccounts) ValidatingAccountsForEpochByIndex(_ context.Context, _ phase0.Epoch, _ []phase0.ValidatorIndex) (map[phase0.ValidatorIndex]e2wtypes.Account, error) {
-	return map[phase0.ValidatorIndex]e2wtypes.Account{}, nil
+func (c *ctrlAccounts) setActive(vs []uint64) {
+	c.e.mu.Lock()
+	defer c.e.mu.Unlock()
+	c.active = vs
 }
 
-func (c ctrlAccounts) SyncCommitteeAccountsForEpoch(ctx context.Context, epoch phase0.Epoch) (map[phase0.ValidatorIndex]e2wtypes.Account, error) {
+func (c *ctrlAccounts) activeAccounts(only []phase0.ValidatorIndex) map[phase0.ValidatorIndex]e2wtypes.Account {
+	c.e.mu.Lock()
+	defer c.e.mu.Unlock()
+	res := map[phase0.ValidatorIndex]e2wtypes.Account{}
+	for _, v := range c.active {
+		if only != nil {
+			found := false
+			for _, i := range only {
+				found = found || uint64(i) == v
+			}
+			if !found {
+				continue
+			}
+		}
+		res[phase0.ValidatorIndex(v)] = &account{V: v}
+	}
+	return res
+}
+
+func (c *ctrlAccounts) ValidatingAccountsForEpoch(_ context.Context, _ phase0.Epoch) (map[phase0.ValidatorIndex]e2wtypes.Account, error) {
+	return c.activeAccounts(nil), nil
+}
+
+func (c *ctrlAccounts) ValidatingAccountsForEpochByIndex(_ context.Context, _ phase0.Epoch, indices []phase0.ValidatorIndex) (map[phase0.ValidatorIndex]e2wtypes.Account, error) {
+	if indices == nil {
+		indices = []phase0.ValidatorIndex{}
+	}
+	return c.activeAccounts(indices), nil
+}
+
+func (c *ctrlAccounts) SyncCommitteeAccountsForEpoch(ctx context.Context, epoch phase0.Epoch) (map[phase0.ValidatorIndex]e2wtypes.Account, error) {
 	return c.e.SyncCommitteeAccountsForEpoch(ctx, epoch)
 }
 
-func (c ctrlAccounts) SyncCommitteeAccountsForEpochByIndex(ctx context.Context, epoch phase0.Epoch, indices []phase0.ValidatorIndex) (map[phase0.ValidatorIndex]e2wtypes.Account, error) {
+func (c *ctrlAccounts) SyncCommitteeAccountsForEpochByIndex(ctx context.Context, epoch phase0.Epoch, indices []phase0.ValidatorIndex) (map[phase0.ValidatorIndex]e2wtypes.Account, error) {
 	return c.e.SyncCommitteeAccountsForEpochByIndex(ctx, epoch, indices)
 }
 
@@ -132,27 +168,41 @@ func runHist(t *testing.T, in *Input) (obs observed) {
 		t.Fatalf("subscriber constructor: %v", err)
 	}
 	// one controller for the whole history
-	ctrl := standardcontroller.NewForVerifC15(&standardcontroller.VerifConfigC15{
-		ChainTime:                     ct,
-		Scheduler:                     sched,
-		SyncCommitteeDutiesProvider:   e,
-		ValidatingAccountsProvider:    ctrlAccounts{e},
-		SyncCommitteeMessenger:        messenger,
-		SyncCommitteeAggregator:       aggregator,
-		SyncCommitteesSubscriber:      subscriber,
-		SlotDuration:                  time.Duration(in.Par.SlotNs),
-		SlotsPerEpoch:                 in.Par.SPE,
-		EpochsPerSyncCommitteePeriod:  in.Par.EPP,
-		AltairForkEpoch:               phase0.Epoch(in.Par.Fork),
-		MaxSyncCommitteeMessageDelay:  time.Duration(in.Par.MsgDelay),
-		SyncCommitteeAggregationDelay: time.Duration(in.Par.AggDelay),
-	})
+	sites := hasSites(in.Hist)
+	sp := &siteParts{ct: ct, sched: sched, duties: e, accounts: &ctrlAccounts{e: e}, messenger: messenger, aggregator: aggregator, subscriber: subscriber}
+	snap := snapshotJobs
+	var ctrl *standardcontroller.Service
+	switch {
+	case sites && in.Hist[0].Kind == "startup":
+		// the controller is built by the first operation (public constructor)
+		snap = snapshotSyncJobs
+	case sites:
+		snap = snapshotSyncJobs
+		ctrl = fullController(in.Par, sp)
+	default:
+		ctrl = standardcontroller.NewForVerifC15(&standardcontroller.VerifConfigC15{
+			ChainTime:                     ct,
+			Scheduler:                     sched,
+			SyncCommitteeDutiesProvider:   e,
+			ValidatingAccountsProvider:    sp.accounts,
+			SyncCommitteeMessenger:        messenger,
+			SyncCommitteeAggregator:       aggregator,
+			SyncCommitteesSubscriber:      subscriber,
+			SlotDuration:                  time.Duration(in.Par.SlotNs),
+			SlotsPerEpoch:                 in.Par.SPE,
+			EpochsPerSyncCommitteePeriod:  in.Par.EPP,
+			AltairForkEpoch:               phase0.Epoch(in.Par.Fork),
+			MaxSyncCommitteeMessageDelay:  time.Duration(in.Par.MsgDelay),
+			SyncCommitteeAggregationDelay: time.Duration(in.Par.AggDelay),
+		})
+	}
 
 	// what the controller last saw in a head event
 	var seenEpoch, nextRoot uint64
 	seen := false
 
-	// a call or a refresh
+	// a call, a refresh or a call site; first: see runSite
+	var first []jobObs
 	runOp := func(op *HOp) {
 		e.mu.Lock()
 		e.in = &Input{Par: in.Par, Duties: op.Duties, DutiesErr: op.DutiesErr, Accts: op.Accts, AcctsErr: op.AcctsErr}
@@ -160,6 +210,8 @@ func runHist(t *testing.T, in *Input) (obs observed) {
 		ct.SetSlot(op.Cur)
 		ce := op.Cur / in.Par.SPE
 		switch {
+		case isSite(op.Kind):
+			first = runSite(t, ctx, in, op, e, sp, &ctrl)
 		case op.Kind == "sched":
 			indices := make([]phase0.ValidatorIndex, 0, len(op.Indices))
 			for _, v := range op.Indices {
@@ -199,13 +251,13 @@ func runHist(t *testing.T, in *Input) (obs observed) {
 				}
 			}()
 			switch op.Kind {
-			case "sched", "refresh":
+			case "sched", "refresh", "tick", "forkepoch", "startup":
 				runOp(op)
 			case "fire":
 				var mid func()
 				if op.Mid != nil {
 					mid = func() {
-						for _, j := range snapshotJobs(ct, sched) {
+						for _, j := range snap(ct, sched) {
 							if j.Slot != op.Fire.Slot {
 								midJobs = append(midJobs, j)
 							}
@@ -217,7 +269,15 @@ func runHist(t *testing.T, in *Input) (obs observed) {
 				ho.Fire = &fo
 			}
 		}()
-		ho.Jobs = snapshotJobs(ct, sched)
+		ho.Jobs = snap(ct, sched)
+		if isSite(op.Kind) && siteHops(op.Kind) == 2 {
+			// two calls: the scheduler after the first, then after both
+			if first == nil {
+				first = []jobObs{}
+			}
+			obs.Hist = append(obs.Hist, histObs{Jobs: first})
+			first = nil
+		}
 		if op.Kind == "fire" && op.Mid != nil {
 			// two entries: the fire (job list at the time of the refresh), then the refresh
 			obs.Hist = append(obs.Hist, histObs{Jobs: midJobs, Fire: ho.Fire})
@@ -236,6 +296,7 @@ func histInput(in *Input) *Input {
 	all := &Input{Par: in.Par}
 	for _, op := range in.Hist {
 		all.Duties = append(all.Duties, op.Duties...)
+		all.Duties = append(all.Duties, op.Duties2...)
 		if op.Mid != nil {
 			all.Duties = append(all.Duties, op.Mid.Duties...)
 		}
@@ -299,18 +360,27 @@ func histTerms(in *Input, obs *observed) (string, string) {
 		return List(nil), List(nil)
 	}
 	all := histInput(in)
+	sites := hasSites(in.Hist)
 	ops := make([]string, 0, len(in.Hist))
+	add := func(hop string) {
+		if sites {
+			hop = App("SOp", hop)
+		}
+		ops = append(ops, hop)
+	}
 	for k := range in.Hist {
 		op := &in.Hist[k]
-		switch op.Kind {
-		case "sched":
-			ops = append(ops, App("HSched", schedInTerm(op.Epoch, op.Cur, op.NotCur, op.Indices, op.Duties, op.DutiesErr, op.Accts, op.AcctsErr)))
-		case "refresh":
-			ops = append(ops, refreshTerm(op))
+		switch {
+		case op.Kind == "sched":
+			add(App("HSched", schedInTerm(op.Epoch, op.Cur, op.NotCur, op.Indices, op.Duties, op.DutiesErr, op.Accts, op.AcctsErr)))
+		case op.Kind == "refresh":
+			add(refreshTerm(op))
+		case isSite(op.Kind):
+			ops = append(ops, siteTerm(op))
 		default:
-			ops = append(ops, App("HFire", fireInTerm(all, op.Fire)))
+			add(App("HFire", fireInTerm(all, op.Fire)))
 			if op.Mid != nil {
-				ops = append(ops, refreshTerm(op.Mid))
+				add(refreshTerm(op.Mid))
 			}
 		}
 	}
@@ -322,6 +392,10 @@ func histTerms(in *Input, obs *observed) (string, string) {
 			fo = Some(fireOutTerm(ho.Fire))
 		}
 		hobs = append(hobs, Pair(jobRunTerms(ho.Jobs), fo))
+	}
+	if sites {
+		// the model (Model/C15_Sites.v) decides which calls the sites make
+		return App("sites_hops", parTerm(in.Par), List(ops)), List(hobs)
 	}
 	return List(ops), List(hobs)
 }
